@@ -724,38 +724,22 @@ func (it *Interp) convert(v Value, from, to types.Type) Value {
 			}
 			return fromTerm(tt.FUn(op, ts, it.term(v, fs)))
 		case !fInt && tInt:
-			if v.Ref == nil {
-				f := evalFloat(fs, v.Bits)
-				// Go: out-of-range float->int conversion is implementation-defined;
-				// follow amd64 gc behaviour is not modelled: abort
-				if math.IsNaN(f) || f >= 1.8446744073709552e19 || f <= -9.3e18 {
-					it.unsupported("float to integer conversion out of range (implementation-defined)")
-				}
-				var x uint64
-				if tsigned {
-					if f >= 9.223372036854775807e18 {
-						it.unsupported("float to integer conversion out of range (implementation-defined)")
-					}
-					x = uint64(int64(f))
-				} else {
-					if f < 0 {
-						x = uint64(int64(f))
-					} else {
-						x = uint64(f)
-					}
-				}
-				return Value{Bits: x & mask(ts)}
+			// Go leaves out-of-range float->integer conversions implementation
+			// defined; the model is what gc emits on amd64 (cvttsd2sq: the
+			// "integer indefinite" 0x8000000000000000 outside int64; uint64(f) is
+			// int64(f) below 2^63 and int64(f-2^63)^(1<<63) from 2^63 on).
+			ft := it.term(v, fs)
+			if fs == SF32 {
+				ft = tt.FUn(OFToF, SF64, ft)
 			}
-			// symbolic: convert to 64-bit then truncate (matches gc for in-range values)
-			op := OFToUBV
-			if tsigned {
-				op = OFToSBV
-			}
-			r := tt.FUn(op, 64, v.Ref.(*Term))
+			r := it.floatToInt64(ft, tsigned)
 			if ts < 64 {
-				r = tt.Extract(r, int(ts)-1, 0)
+				if r.Ref == nil {
+					return Value{Bits: r.Bits & mask(ts)}
+				}
+				return fromTerm(tt.Extract(r.Ref.(*Term), int(ts)-1, 0))
 			}
-			return fromTerm(r)
+			return r
 		default:
 			return fromTerm(tt.FUn(OFToF, ts, it.term(v, fs)))
 		}
@@ -853,4 +837,35 @@ func (it *Interp) convert(v Value, from, to types.Type) Value {
 	}
 	it.unsupported(fmt.Sprintf("conversion %s -> %s", typeStr(from), typeStr(to)))
 	return Value{}
+}
+
+// floatToInt64 converts a float64 term to a 64-bit integer with amd64 semantics.
+func (it *Interp) floatToInt64(f *Term, signed bool) Value {
+	tt := it.tt
+	c := func(x float64) *Term { return tt.Const(SF64, math.Float64bits(x)) }
+	const two63 = 9223372036854775808.0
+	indefinite := Value{Bits: 1 << 63}
+	toS := func(x *Term) Value {
+		// in range: -2^63 <= x < 2^63 (NaN fails both comparisons)
+		in := tt.And(tt.FCmp(OFLe, c(-two63), x), tt.FCmp(OFLt, x, c(two63)))
+		if it.truth(fromTerm(in)) {
+			if x.op == OConst {
+				return Value{Bits: uint64(int64(constFloat(x)))}
+			}
+			return fromTerm(tt.FUn(OFToSBV, 64, x))
+		}
+		return indefinite
+	}
+	if signed {
+		return toS(f)
+	}
+	if it.truth(fromTerm(tt.FCmp(OFLt, f, c(two63)))) {
+		return toS(f)
+	}
+	// f >= 2^63 or NaN
+	r := toS(tt.FBin(OFSub, f, c(two63)))
+	if r.Ref == nil {
+		return Value{Bits: r.Bits ^ (1 << 63)}
+	}
+	return fromTerm(tt.Bin(OBXor, r.Ref.(*Term), tt.Const(64, 1<<63)))
 }
